@@ -66,6 +66,21 @@ type ClientConn struct {
 	closing       bool
 	closingMu     *sync.RWMutex
 	codec         frame.RawCodec
+	codecMu       sync.RWMutex
+}
+
+// getCodec returns the codec used for the connection. The codec is replaced during the handshake (compression) while the
+// connection's read and write loops are already running, so access is synchronized.
+func (c *ClientConn) getCodec() frame.RawCodec {
+	c.codecMu.RLock()
+	defer c.codecMu.RUnlock()
+	return c.codec
+}
+
+func (c *ClientConn) setCodec(codec frame.RawCodec) {
+	c.codecMu.Lock()
+	c.codec = codec
+	c.codecMu.Unlock()
 }
 
 // ConnectClient creates a new connection to an endpoint within a downstream cluster using TLS if specified.
@@ -96,7 +111,7 @@ func (c *ClientConn) Handshake(ctx context.Context, version primitive.ProtocolVe
 		value := startupKeysAndValues[i+1]
 		if strings.EqualFold("COMPRESSION", key) {
 			if codec, ok := codecs.CustomRawCodecsWithCompression[strings.ToLower(value)]; ok {
-				c.codec = codec
+				c.setCodec(codec)
 			} else {
 				return version, fmt.Errorf("invalid compression type: %s", value)
 			}
@@ -269,14 +284,14 @@ func (c *ClientConn) SetKeyspace(ctx context.Context, version primitive.Protocol
 }
 
 func (c *ClientConn) Receive(reader io.Reader) error {
-	raw, err := c.codec.DecodeRawFrame(reader)
+	raw, err := c.getCodec().DecodeRawFrame(reader)
 	if err != nil {
 		return err
 	}
 
 	if raw.Header.OpCode == primitive.OpCodeEvent {
 		if c.eventHandler != nil {
-			frm, err := c.codec.ConvertFromRawFrame(raw)
+			frm, err := c.getCodec().ConvertFromRawFrame(raw)
 			if err != nil {
 				return err
 			}
@@ -329,7 +344,7 @@ func (c *ClientConn) maybePrepareAndExecute(request Request, raw *frame.RawFrame
 	}
 
 	if maybeUnprepared {
-		frm, err := c.codec.ConvertFromRawFrame(raw)
+		frm, err := c.getCodec().ConvertFromRawFrame(raw)
 		if err != nil {
 			c.logger.Error("failed to decode unprepared error response", zap.Error(err))
 			return false
@@ -374,7 +389,7 @@ func (c *ClientConn) maybeCachePrepared(request Request, raw *frame.RawFrame) {
 	// response types to see if check for prepared responses.
 	if request.IsPrepareRequest() {
 
-		frm, err := c.codec.ConvertFromRawFrame(raw)
+		frm, err := c.getCodec().ConvertFromRawFrame(raw)
 		if err != nil {
 			c.logger.Error("failed to decode prepared result response", zap.Error(err))
 			return
@@ -399,7 +414,7 @@ func (c *ClientConn) portablePrepareFrame(raw *frame.RawFrame) *frame.RawFrame {
 	if !raw.Header.Flags.Contains(primitive.HeaderFlagCompressed) {
 		return raw
 	}
-	frm, err := c.codec.ConvertFromRawFrame(raw)
+	frm, err := c.getCodec().ConvertFromRawFrame(raw)
 	if err != nil {
 		c.logger.Error("failed to decompress prepare request for the prepared cache", zap.Error(err))
 		return raw
@@ -493,7 +508,7 @@ func (c *ClientConn) SendAndReceive(ctx context.Context, f *frame.Frame) (*frame
 
 	select {
 	case r := <-request.res:
-		return c.codec.ConvertFromRawFrame(r)
+		return c.getCodec().ConvertFromRawFrame(r)
 	case e := <-request.err:
 		return nil, e
 	case <-ctx.Done():
@@ -564,12 +579,12 @@ func (r *requestSender) Send(writer io.Writer) error {
 		hdr := *frm.Header
 		hdr.StreamId = r.stream
 		verifAt("requestsender.stream.set", r.conn, &hdr, r.stream)
-		return r.conn.codec.EncodeFrame(&frame.Frame{Header: &hdr, Body: frm.Body}, writer)
+		return r.conn.getCodec().EncodeFrame(&frame.Frame{Header: &hdr, Body: frm.Body}, writer)
 	case *frame.RawFrame:
 		hdr := *frm.Header
 		hdr.StreamId = r.stream
 		verifAt("requestsender.stream.set", r.conn, &hdr, r.stream)
-		return r.conn.codec.EncodeRawFrame(&frame.RawFrame{Header: &hdr, Body: frm.Body}, writer)
+		return r.conn.getCodec().EncodeRawFrame(&frame.RawFrame{Header: &hdr, Body: frm.Body}, writer)
 	default:
 		return errors.New("unhandled frame type")
 	}
